@@ -9,14 +9,7 @@
    Scope: the path-bearing fields of the pipeline model are the kustomization file and `resources:`;
    generators take literal sources only.  The fields outside the model are tied by Gen_rawreads_ok: they
    can reach the file system through FileLoader.Load only. *)
-From KV Require Export Fs.Loader Res.Pipeline.
-
-Record read_ev : Type := mkEv {
-  ev_root : string;     (* root of the loader (layer) that issued the read *)
-  ev_ref : string;      (* the reference as written in the kustomization *)
-  ev_path : string;     (* the path handed to FileSystem.ReadFile *)
-  ev_bytes : string     (* what was read *)
-}.
+From KV Require Export Fs.LoadTree Res.Pipeline.
 
 Section BuildLoad.
   Variable is_repo : string -> bool.
@@ -26,52 +19,8 @@ Section BuildLoad.
   (* … a resource file -> its documents *)
   Variable parse_docs : string -> res (list node).
 
-  (* loadKustFile: the model knows the file name kustomization.yaml only *)
-  Definition kust_file : string := "kustomization.yaml".
-
-  (* FileLoader.Load of a local reference, keeping the path it hands to ReadFile *)
-  Definition load_ev (fs : fsops) (l : loader) (p : string) : res read_ev :=
-    match restrict fs l (load_path l p) with
-    | Ok q =>
-        match f_read_file fs q with
-        | Ok b => Ok (mkEv (l_root l) p q b)
-        | Err => Err
-        | Panic => Panic
-        | Diverge => Diverge
-        end
-    | Err => Err
-    | Panic => Panic
-    | Diverge => Diverge
-    end.
-
-  Fixpoint load_tree (fuel : nat) (fs : fsops) (l : loader) : res (ptree * list read_ev) :=
-    match fuel with
-    | O => Diverge
-    | S f =>
-        do ke <- load_ev fs l kust_file;
-        do kd <- parse_kust (ev_bytes ke);
-        do r <- (fix go (ps : list string) : res (list ptree * list read_ev) :=
-                   match ps with
-                   | [] => Ok ([], [])
-                   | p :: t =>
-                       do here <-
-                         match load_ev fs l p with
-                         | Ok e => do docs <- parse_docs (ev_bytes e); Ok (PFile docs, [e])
-                         | Err =>                           (* not loadable as a file: a base *)
-                             match new_root is_repo git_new fs l p with
-                             | Ok l2 => load_tree f fs l2
-                             | Err => Err
-                             | Panic => Panic
-                             | Diverge => Diverge
-                             end
-                         | Panic => Panic
-                         | Diverge => Diverge
-                         end;
-                       do rest <- go t;
-                       Ok (fst here :: fst rest, (snd here ++ snd rest)%list)
-                   end) (snd kd);
-        Ok (PDir (l_root l) (fst kd) (fst r), ke :: snd r)
-    end.
+  Definition load_tree : nat -> fsops -> loader -> res (ptree * list read_ev) :=
+    load_tree_gen ptree pdirs (list node) PFile PDir is_repo git_new parse_kust parse_docs.
 
   (* the model build from a file system: load, then the (file-system free) pipeline *)
   Definition model_build (nonstr : string -> bool) (o : psort) (fuel : nat) (fs : fsops) (target : string)
